@@ -107,3 +107,276 @@ fn c13_ss_reinit_m5() {
 fn c13_ss_new_m3() {
     c13_new_ss::<3>();
 }
+
+// =====================================================================================
+// C05 — merge at register level
+// =====================================================================================
+//
+// Representation invariant of a SetSketcher (holds for new/reinit, preserved by sketch and merge):
+//   Inv:  lower_k is a non-negative integer-valued f64 and lower_k <= min(k_vec)
+
+pub(crate) fn min_reg<I: Integer + ToPrimitive + Copy>(k: &[I]) -> f64 {
+    let mut mn = k[0];
+    for i in 1..k.len() {
+        if k[i] < mn {
+            mn = k[i];
+        }
+    }
+    mn.to_f64().unwrap()
+}
+
+/// arbitrary registers and an arbitrary lower bound satisfying Inv
+fn any_state_u16<const M: usize>(s: &mut Ss16) {
+    for i in 0..M {
+        s.k_vec[i] = kani::any();
+    }
+    let lk: u16 = kani::any();
+    kani::assume((lk as f64) <= min_reg(&s.k_vec[..]));
+    s.lower_k = lk as f64;
+    s.nbmin = kani::any();
+    s.nb_overflow = kani::any();
+}
+fn any_state_u32<const M: usize>(s: &mut Ss32) {
+    for i in 0..M {
+        s.k_vec[i] = kani::any();
+    }
+    let lk: u32 = kani::any();
+    kani::assume((lk as f64) <= min_reg(&s.k_vec[..]));
+    s.lower_k = lk as f64;
+    s.nbmin = kani::any();
+    s.nb_overflow = kani::any();
+}
+
+macro_rules! c05_merge_ok {
+    ($fname:ident, $alias:ty, $any_state:ident, $reg:ty) => {
+        /// same parameters: position-wise max, commutative, idempotent, Inv kept, overflow counters added
+        fn $fname<const M: usize>() {
+            let b = any_f64_in(1.0000001, 2.0);
+            let a = any_f64_in(1.0e-3, 1.0e6);
+            let q: u64 = kani::any();
+            let lnb = any_f64_in(1.0e-8, 0.7);
+            let mut x: $alias = literal_ss(b, M, a, q, lnb);
+            let mut y: $alias = literal_ss(b, M, a, q, lnb);
+            $any_state::<M>(&mut x);
+            $any_state::<M>(&mut y);
+            kani::assume(x.nb_overflow < (1u64 << 62) && y.nb_overflow < (1u64 << 62));
+            let mut kx = [<$reg>::MIN; M];
+            let mut ky = [<$reg>::MIN; M];
+            for i in 0..M {
+                kx[i] = x.k_vec[i];
+                ky[i] = y.k_vec[i];
+            }
+            let (lx, ly, ox, oy) = (x.lower_k, y.lower_k, x.nb_overflow, y.nb_overflow);
+            // x <- x U y
+            let r = strip(x.merge(&y));
+            assert!(r.is_some());
+            for i in 0..M {
+                assert!(x.k_vec[i] == if kx[i] >= ky[i] { kx[i] } else { ky[i] });
+                assert!(y.k_vec[i] == ky[i]); // argument untouched
+            }
+            assert!(x.nb_overflow == ox + oy);
+            // Inv is kept: the stale lower bound of the receiver is still a lower bound
+            assert!(beq(x.lower_k, lx) && x.lower_k <= min_reg(&x.k_vec[..]));
+            assert!(x.get_low_sketch() as f64 <= min_reg(&x.k_vec[..]));
+            assert!(x.m == M as u64 && x.q == q && beq(x._b, b) && beq(x.a, a) && beq(x.lnb, lnb));
+            // commutative: y' <- y U (old x) has the same registers
+            let mut x0: $alias = literal_ss(b, M, a, q, lnb);
+            for i in 0..M {
+                x0.k_vec[i] = kx[i];
+            }
+            x0.lower_k = lx;
+            let r2 = strip(y.merge(&x0));
+            assert!(r2.is_some());
+            for i in 0..M {
+                assert!(y.k_vec[i] == x.k_vec[i]);
+            }
+            assert!(beq(y.lower_k, ly) && y.lower_k <= min_reg(&y.k_vec[..]));
+            // idempotent: merging the same operand again changes no register
+            let r3 = strip(x.merge(&x0));
+            assert!(r3.is_some());
+            for i in 0..M {
+                assert!(x.k_vec[i] == y.k_vec[i]);
+            }
+            kani::cover!(kx[0] < ky[0] && (M < 2 || kx[1] > ky[1]), "witness: registers taken from both sides");
+        }
+    };
+}
+c05_merge_ok!(c05_merge_ok_u16, Ss16, any_state_u16, u16);
+c05_merge_ok!(c05_merge_ok_u32, Ss32, any_state_u32, u32);
+
+/// associativity at register level: (x U y) U z == x U (y U z)
+fn c05_merge_assoc<const M: usize>() {
+    let (b, a, q, lnb) = (1.001, 20.0, 65534u64, 0.001);
+    let mut x: Ss16 = literal_ss(b, M, a, q, lnb);
+    let mut y: Ss16 = literal_ss(b, M, a, q, lnb);
+    let mut z: Ss16 = literal_ss(b, M, a, q, lnb);
+    let mut x2: Ss16 = literal_ss(b, M, a, q, lnb);
+    for i in 0..M {
+        let v: u16 = kani::any();
+        x.k_vec[i] = v;
+        x2.k_vec[i] = v;
+        y.k_vec[i] = kani::any();
+        z.k_vec[i] = kani::any();
+    }
+    // (x U y) U z
+    assert!(strip(x.merge(&y)).is_some());
+    assert!(strip(x.merge(&z)).is_some());
+    // x U (y U z)
+    assert!(strip(y.merge(&z)).is_some());
+    assert!(strip(x2.merge(&y)).is_some());
+    for i in 0..M {
+        assert!(x.k_vec[i] == x2.k_vec[i]);
+    }
+    kani::cover!(true, "witness");
+}
+
+/// different parameters: merge is refused and the receiver is bit-identical afterwards
+fn c05_merge_refused<const M: usize, const M2: usize>() {
+    let b = any_f64_in(1.0000001, 2.0);
+    let a = any_f64_in(1.0e-3, 1.0e6);
+    let b2 = any_f64_in(1.0000001, 2.0);
+    let a2 = any_f64_in(1.0e-3, 1.0e6);
+    let q: u64 = kani::any();
+    let q2: u64 = kani::any();
+    let lnb = any_f64_in(1.0e-8, 0.7);
+    let lnb2 = any_f64_in(1.0e-8, 0.7);
+    let mut x: Ss16 = literal_ss(b, M, a, q, lnb);
+    let mut y: Ss16 = literal_ss(b2, M2, a2, q2, lnb2);
+    any_state_u16::<M>(&mut x);
+    any_state_u16::<M2>(&mut y);
+    let mut kx = [0u16; M];
+    for i in 0..M {
+        kx[i] = x.k_vec[i];
+    }
+    let (lx, ox, nx) = (x.lower_k, x.nb_overflow, x.nbmin);
+    // "different parameters" in the code's own (documented) sense: m or q differ, or a / b differ by at
+    // least one relative epsilon
+    let differ = M != M2 || q != q2 || (b - b2).abs() / b >= f64::EPSILON || (a - a2).abs() / a >= f64::EPSILON;
+    kani::assume(differ);
+    kani::assume(x.nb_overflow < (1u64 << 62) && y.nb_overflow < (1u64 << 62));
+    let r = strip(x.merge(&y));
+    assert!(r.is_none());
+    for i in 0..M {
+        assert!(x.k_vec[i] == kx[i]);
+    }
+    assert!(x.k_vec.len() == M);
+    assert!(beq(x.lower_k, lx) && x.nb_overflow == ox && x.nbmin == nx);
+    assert!(x.m == M as u64 && x.q == q && beq(x._b, b) && beq(x.a, a) && beq(x.lnb, lnb));
+    kani::cover!(M != M2 || (q == q2 && b == b2), "witness: refused because only `a` (or m) differs");
+    kani::cover!(M != M2 || (q != q2 && b == b2 && a == a2), "witness: refused because only q (or m) differs");
+}
+
+macro_rules! bt_proof {
+    ($name:ident, $unw:expr, $body:expr) => {
+        #[kani::proof]
+        #[kani::stub(std::backtrace::Backtrace::capture, crate::verif_common::no_backtrace)]
+        #[kani::unwind($unw)]
+        fn $name() {
+            $body
+        }
+    };
+}
+bt_proof!(c05_merge_u16_m2, 5, c05_merge_ok_u16::<2>());
+bt_proof!(c05_merge_u16_m3, 6, c05_merge_ok_u16::<3>());
+bt_proof!(c05_merge_u16_m5, 8, c05_merge_ok_u16::<5>());
+bt_proof!(c05_merge_u32_m3, 6, c05_merge_ok_u32::<3>());
+bt_proof!(c05_merge_assoc_m3, 6, c05_merge_assoc::<3>());
+bt_proof!(c05_merge_assoc_m4, 7, c05_merge_assoc::<4>());
+bt_proof!(c05_merge_refused_m3, 6, c05_merge_refused::<3, 3>());
+bt_proof!(c05_merge_refused_m3_m2, 6, c05_merge_refused::<3, 2>());
+bt_proof!(c05_merge_refused_m2_m4, 7, c05_merge_refused::<2, 4>());
+
+// =====================================================================================
+// C04 / C05 — one SetSketcher::sketch call is the position-wise max with the item's
+// unpruned contribution (join lemma), and keeps Inv
+// =====================================================================================
+use rand_xoshiro::Xoshiro256PlusPlus as Xo;
+
+macro_rules! c04_ss_step {
+    ($fname:ident, $alias:ty, $any_state:ident, $reg:ty) => {
+        fn $fname<const M: usize>() {
+            let b = any_f64_in(1.0000001, 2.0);
+            let a = any_f64_in(1.0e-3, 1.0e6);
+            let q: u64 = kani::any();
+            kani::assume(q < (1u64 << 40));
+            let lnb = any_f64_in(1.0e-8, 0.7);
+            let mut s: $alias = literal_ss(b, M, a, q, lnb);
+            $any_state::<M>(&mut s);
+            kani::assume(s.nbmin < (1u64 << 62) && s.nb_overflow < (1u64 << 62));
+            // the shuffle may be in any state left by the previous item: sketch must reset it
+            s.permut_generator = fyk::any_shuffle(M);
+            let mut old = [<$reg>::MIN; M];
+            for i in 0..M {
+                old[i] = s.k_vec[i];
+            }
+            let (l0, ov0) = (s.lower_k, s.nb_overflow);
+            let item: u64 = kani::any();
+            // ---- the real call
+            let r = strip(s.sketch(&item));
+            assert!(r.is_some());
+            // ---- reference: the item's full, unpruned contribution from the same per-item stream
+            let imax = <$reg>::MAX as u64;
+            let mut contrib = [0u64; M];
+            let mut rng = Xo::seed_from_u64(nohash(item));
+            let mut perm = FYshuffle::new(M);
+            let inva: f64 = 1. / a;
+            let mut x_pred: f64 = 0.;
+            let mut nover_ref: u64 = 0;
+            for j in 0..M {
+                let e: f64 = rng.sample::<f64, Exp1>(Exp1);
+                let x_j = x_pred + (inva / (M - j) as f64) * e;
+                x_pred = x_j;
+                let lb = x_j.ln() / lnb;
+                let t = 1. - lb;
+                // excluded boundary (stated in the evidence): the float subtraction `1 - lb` rounds *up onto*
+                // an integer although the exact value is below it.  Only there do the code's two equivalent
+                // pruning tests (`lb > -lower_k` and `k <= lower_k`) disagree, by one unit of k.
+                kani::assume(!(t == t.floor() && lb > 1. - t));
+                let z: i64 = (q as i64 + 1).min(t.floor() as i64);
+                let k = 0.max(z) as u64;
+                let i = perm.next(&mut rng);
+                for i0 in 0..M {
+                    if i == i0 {
+                        contrib[i0] = if k > imax { imax } else { k };
+                        if k > imax {
+                            nover_ref += 1;
+                        }
+                    }
+                }
+            }
+            // ---- join lemma: every register is max(old, contribution)
+            for i in 0..M {
+                let c = contrib[i] as $reg;
+                assert!(s.k_vec[i] == if c > old[i] { c } else { old[i] });
+            }
+            // ---- Inv kept, the lower bound never decreases, overflow counter only counts overflows
+            assert!(s.lower_k >= l0);
+            assert!(s.lower_k <= min_reg(&s.k_vec[..]));
+            assert!(s.lower_k == s.lower_k.floor() && s.lower_k >= 0.);
+            assert!(s.get_low_sketch() as f64 <= min_reg(&s.k_vec[..]));
+            assert!(s.nb_overflow == ov0 + nover_ref);
+            assert!(s.m == M as u64 && s.q == q && beq(s._b, b) && beq(s.a, a) && beq(s.lnb, lnb));
+            kani::cover!(s.k_vec[0] > old[0] && s.k_vec[M - 1] == old[M - 1], "witness: one register raised, another kept");
+            kani::cover!(s.lower_k > l0, "witness: lower bound raised");
+        }
+    };
+}
+c04_ss_step!(c04_ss_step_u16, Ss16, any_state_u16, u16);
+c04_ss_step!(c04_ss_step_u32, Ss32, any_state_u32, u32);
+
+macro_rules! ss_proof {
+    ($name:ident, $unw:expr, $body:expr) => {
+        #[kani::proof]
+        #[kani::stub(std::backtrace::Backtrace::capture, crate::verif_common::no_backtrace)]
+        #[kani::stub(f64::ln, crate::verif_common::ln_mono_stub)]
+        #[kani::unwind($unw)]
+        fn $name() {
+            $body
+        }
+    };
+}
+ss_proof!(c04_ss_step_u16_m2, 5, c04_ss_step_u16::<2>());
+ss_proof!(c04_ss_step_u16_m3, 6, c04_ss_step_u16::<3>());
+ss_proof!(c04_ss_step_u16_m4, 7, c04_ss_step_u16::<4>());
+ss_proof!(c04_ss_step_u32_m2, 5, c04_ss_step_u32::<2>());
+ss_proof!(c04_ss_step_u32_m3, 6, c04_ss_step_u32::<3>());
